@@ -337,7 +337,10 @@ impl FileServer for FileServerReal
 
 		let filename_path = std::path::PathBuf::from(filename);
 
-		if !filename_path.exists()
+		// Names under the `<std>/` prefix only ever refer to the
+		// built-in files registered above, never to the file system
+		if util::is_std_path(filename) ||
+			!filename_path.exists()
 		{
 			report_error(
 				report,
